@@ -1906,10 +1906,17 @@ def serialize_graph_into(
                 continue
             else:
                 serialize_value_into(graph_proto.value_info.add(), node_output)
+    annotated_output_names: set[str | None] = set()
     for output in from_.outputs:
         serialize_value_into(graph_proto.output.add(), from_=output)
-        if output.name not in input_names and output.name not in from_.initializers:
-            # Annotations for inputs and initializers were added above
+        if (
+            output.name not in input_names
+            and output.name not in from_.initializers
+            and output.name not in annotated_output_names
+        ):
+            # Annotations for inputs and initializers were added above; a value listed
+            # at several output positions is annotated once
+            annotated_output_names.add(output.name)
             _maybe_add_quantization_annotation(graph_proto, output)
     if from_.metadata_props:
         _serialize_metadata_props_into(graph_proto.metadata_props, from_.metadata_props)
